@@ -146,9 +146,54 @@ def run(rep, tier, seed, summary):
     if ok and not bad and all(o[1] for o in rep.obligations):
         return
     # something no longer checks: look for a concrete input on which a law fails on the implementation
+    def in_quantifier(c):
+        """non-overlapping contiguous non-zero masks / blobs inside the buffer, values in range: the property's hypotheses"""
+        n = len(c["r"])
+        used = set()
+        lay = dict((k, e) for k, e in c["L"])
+        if len(lay) != len(c["L"]):
+            return False
+        for k, e in c["L"]:
+            if e[0] == "mask":
+                m, o = e[1], e[2]
+                if m == 0:
+                    return False
+                z = (m & -m).bit_length() - 1
+                w = (m >> z).bit_length()
+                if (m >> z) != (1 << w) - 1:
+                    return False
+                kb = max(1, (m.bit_length() + 7) // 8)
+                if o + kb > n:
+                    return False
+                bits = set(range(8 * (n - o - kb) + z, 8 * (n - o - kb) + z + w))
+            else:
+                u, o, ln = e[1], e[2], e[3]
+                if o + u * ln > n:
+                    return False
+                bits = set(range(8 * (n - o - u * ln), 8 * (n - o)))
+            if bits & used:
+                return False
+            used |= bits
+        keys = [k for k, _ in c["d"]]
+        if len(set(keys)) != len(keys):
+            return False
+        for k, v in c["d"]:
+            if k not in lay:
+                continue
+            e = lay[k]
+            if e[0] == "mask":
+                z = (e[1] & -e[1]).bit_length() - 1
+                if v[0] != "i" or v[1] >= (1 << ((e[1] >> z).bit_length())):
+                    return False
+            elif v[0] != "b" or len(v[1]) != e[1] * e[3]:
+                return False
+        return True
+
     extra = []
-    for b in bad[:50]:
+    for b in bad[:200]:
         c = b.get("case")
+        if c and c.get("op") == "enc" and not in_quantifier(c):
+            continue
         if c and c.get("op") == "enc":
             extra.append(dict(law="layout", n=len(c["r"]), L=c["L"], d=c["d"], prior=c["r"]))
         if c and c.get("op") == "i2b":
